@@ -57,7 +57,10 @@ Complement(c) ==
 
 Reverse(s) == [i \in 1..Len(s) |-> s[Len(s) - i + 1]]
 RevComp(s) == [i \in 1..Len(s) |-> Complement(s[Len(s) - i + 1])]
-Slice(s, lo, hi) == SubSeq(s, lo + 1, hi)          \* 0-based half-open
+\* 0-based half-open; total: bounds outside the sequence are clipped (a start below 0 to 0, an end beyond the
+\* sequence to its length), so that a wrong coordinate observed from the code is judged by a clause, not by an
+\* evaluation error
+Slice(s, lo, hi) == SubSeq(s, (IF lo < 0 THEN 0 ELSE lo) + 1, IF hi > Len(s) THEN Len(s) ELSE hi)
 UpperSeq(s) == [i \in 1..Len(s) |-> Upper(s[i])]
 LowerC(c) == IF c >= 65 /\ c <= 90 THEN c + 32 ELSE c
 LowerSeq(s) == [i \in 1..Len(s) |-> LowerC(s[i])]
